@@ -257,7 +257,7 @@ func childMain(tier string, from, to int, progPath, resPath string) {
 			}
 		}
 	}()
-	segs, _ := caseList(tier == "quick")
+	segs, _ := caseList(tier == "quick" || os.Getenv("VERIF_C01_RACE") == "1")
 	for _, s := range segs {
 		lo, hi := max(from, s.start), min(to, s.start+s.Count)
 		if lo >= hi {
